@@ -95,25 +95,56 @@ type cholOp struct {
 	kind  byte // 'R' rank one, 'E' extend, 'S' scale, 'C' clone, 'U' SetFromU
 	alpha float64
 	x     func(n int) []float64
+	// state dependent operations that make the result EXACTLY singular (computed from
+	// the exactly tracked matrix); they are always rejected and end the history.
+	boundary func(A *M) (alpha float64, v []float64)
+}
+
+func colOf(A *M, j int) []float64 { return A.col(j) }
+
+// dupExtend: [A w; wᵀ k] with w = A[:,j], k = A[j,j] has two equal rows.
+func dupExtend(last bool) func(A *M) (float64, []float64) {
+	return func(A *M) (float64, []float64) {
+		j := 0
+		if last {
+			j = A.r - 1
+		}
+		return 0, append(colOf(A, j), A.at(j, j))
+	}
+}
+
+// boundaryDowndate: A - a_j a_jᵀ / a_jj has a zero j-th row: 1 + alpha xᵀA⁻¹x = 0 exactly.
+func boundaryDowndate(last bool) func(A *M) (float64, []float64) {
+	return func(A *M) (float64, []float64) {
+		j := 0
+		if last {
+			j = A.r - 1
+		}
+		return -1 / A.at(j, j), colOf(A, j)
+	}
 }
 
 var cholOps = []cholOp{
-	{"R(1,e1)", 'R', 1, vecE1}, {"R(1,ones)", 'R', 1, vecOnes}, {"R(1,alt)", 'R', 1, vecAlt},
-	{"R(-1/2,e1)", 'R', -0.5, vecE1}, {"R(-1/2,ones)", 'R', -0.5, vecOnes}, {"R(-1/2,alt)", 'R', -0.5, vecAlt},
-	{"R(2,e1)", 'R', 2, vecE1}, {"R(2,ones)", 'R', 2, vecOnes}, {"R(2,alt)", 'R', 2, vecAlt},
+	{"R(1,e1)", 'R', 1, vecE1, nil}, {"R(1,ones)", 'R', 1, vecOnes, nil}, {"R(1,alt)", 'R', 1, vecAlt, nil},
+	{"R(-1/2,e1)", 'R', -0.5, vecE1, nil}, {"R(-1/2,ones)", 'R', -0.5, vecOnes, nil}, {"R(-1/2,alt)", 'R', -0.5, vecAlt, nil},
+	{"R(2,e1)", 'R', 2, vecE1, nil}, {"R(2,ones)", 'R', 2, vecOnes, nil}, {"R(2,alt)", 'R', 2, vecAlt, nil},
 	// ExtendVecSym(v): v[:n] = w, v[n] = k
-	{"E(e1,n+4)", 'E', 0, func(n int) []float64 { return append(vecE1(n), float64(n+4)) }},
-	{"E(alt,4096)", 'E', 0, func(n int) []float64 { return append(vecAlt(n), 4096) }},
+	{"E(e1,n+4)", 'E', 0, func(n int) []float64 { return append(vecE1(n), float64(n+4)) }, nil},
+	{"E(alt,4096)", 'E', 0, func(n int) []float64 { return append(vecAlt(n), 4096) }, nil},
 	{"E(2ones,0)", 'E', 0, func(n int) []float64 { // k = 0: never positive definite
 		v := vecOnes(n)
 		for i := range v {
 			v[i] = 2
 		}
 		return append(v, 0)
-	}},
-	{"S(2)", 'S', 2, nil}, {"S(1/2)", 'S', 0.5, nil},
-	{"Clone", 'C', 0, nil},
-	{"SetFromU", 'U', 0, nil},
+	}, nil},
+	{"S(2)", 'S', 2, nil, nil}, {"S(1/2)", 'S', 0.5, nil, nil},
+	{"Clone", 'C', 0, nil, nil},
+	{"SetFromU", 'U', 0, nil, nil},
+	{"E(dup-first)", 'E', 0, nil, dupExtend(false)},
+	{"E(dup-last)", 'E', 0, nil, dupExtend(true)},
+	{"R(-1/a11,col1)", 'R', 0, nil, boundaryDowndate(false)},
+	{"R(-1/ann,coln)", 'R', 0, nil, boundaryDowndate(true)},
 }
 
 const histMaxN = 6 // ExtendVecSym is not applied beyond this size
@@ -158,11 +189,16 @@ func (h *histCtx) failf(class, format string, a ...any) {
 }
 
 func genCholHist(g *vlib.G) {
-	depth := vlib.Pick(g, 4, 5)
-	for _, fam := range []string{"spd", "spd-dd"} {
+	for _, fam := range []string{"spd", "spd-dd", "ident"} {
+		depth := vlib.Pick(g, 4, 5)
+		if fam == "ident" {
+			// exact arithmetic states (all factors are small dyadic numbers at first): the
+			// boundary operations are decided exactly by the implementation too. One level less.
+			depth--
+		}
 		for n := 1; n <= 4; n++ {
 			for o1 := range cholOps {
-				fam, n, o1 := fam, n, o1
+				fam, n, o1, depth := fam, n, o1, depth
 				g.Case(fmt.Sprintf("chol-history start=%s n=%d first=%s depth<=%d", fam, n, cholOps[o1].name, depth), func(t *vlib.T) {
 					A := symMat(fam, n, 0)
 					var c mat.Cholesky
@@ -185,6 +221,22 @@ func genCholHist(g *vlib.G) {
 			}
 		}
 	}
+}
+
+// badDiag describes a diagonal entry of the factor that is not finite and strictly positive ("" if none).
+func badDiag(c *mat.Cholesky) string {
+	if c.IsEmpty() {
+		return "an empty receiver"
+	}
+	var u mat.TriDense
+	c.UTo(&u)
+	n, _ := u.Triangle()
+	for i := 0; i < n; i++ {
+		if d := u.At(i, i); !(d > 0) || math.IsInf(d, 0) {
+			return fmt.Sprintf("U[%d,%d] = %v", i, i, d)
+		}
+	}
+	return ""
 }
 
 // cholStep applies op to a copy of the parent state, checks the result and recurses.
@@ -218,17 +270,25 @@ func (h *histCtx) cholStep(parent *cholNode, oi int, depth int) {
 	}
 	A2 := parent.A
 	applied := true
+	terminal := false // the history ends here (exactly singular result)
 	var cls string
 	switch op.kind {
 	case 'R':
-		x := op.x(n)
+		var x []float64
+		if op.boundary != nil {
+			op.alpha, x = op.boundary(parent.A)
+		} else {
+			x = op.x(n)
+		}
 		var xv mat.Vector = mat.NewVecDense(n, append([]float64(nil), x...))
 		if depth%2 == 0 {
 			xv = repVec("vecinc", x)
 		}
 		// exact decision: A + αxxᵀ is positive definite iff 1 + α xᵀA⁻¹x > 0
 		want := 1
-		if op.alpha < 0 {
+		if op.boundary != nil {
+			want = 0 // by construction
+		} else if op.alpha < 0 {
 			inv, _, ok := invF64(parent.A)
 			if !ok {
 				panic("harness: parent not invertible")
@@ -262,10 +322,23 @@ func (h *histCtx) cholStep(parent *cholNode, oi int, depth int) {
 		}
 		switch {
 		case want == 0:
-			// exactly singular result: either answer is acceptable (documented: "may not be positive definite")
-			cls = "R-singular-dontcare"
-			h.outcomes[cls]++
-			return
+			// Exactly singular result: documented to return false ("returns whether the updated
+			// matrix A' is positive definite"). The implementation decides on rounded quantities,
+			// so true is tolerated only if it leaves a usable factor (finite, strictly positive
+			// diagonal; then the pivot is rounding noise); a zero or NaN diagonal with ok == true is
+			// the violation. In states whose factors are exactly representable (start = identity)
+			// this is the strict test ok == false.
+			terminal = true
+			if ok {
+				if bad := badDiag(recv); bad != "" {
+					h.failf("", "SymRankOne(%g,%v) on %s gives an exactly singular matrix but returned true with %s", op.alpha, x, fmtM(parent.A), bad)
+					return
+				}
+				h.outcomes["R-singular-accepted-by-rounding"]++
+				return
+			}
+			cls = "R-singular-rejected"
+			applied = false
 		case want < 0:
 			cls = "R-rejected"
 			if ok {
@@ -287,7 +360,12 @@ func (h *histCtx) cholStep(parent *cholNode, oi int, depth int) {
 			}
 		}
 	case 'E':
-		v := op.x(n)
+		var v []float64
+		if op.boundary != nil {
+			_, v = op.boundary(parent.A)
+		} else {
+			v = op.x(n)
+		}
 		var vv mat.Vector = mat.NewVecDense(n+1, append([]float64(nil), v...))
 		if depth%2 == 0 {
 			vv = userVec{append([]float64(nil), v...)}
@@ -301,16 +379,40 @@ func (h *histCtx) cholStep(parent *cholNode, oi int, depth int) {
 			}
 		}
 		d := v[n] - q
-		if math.Abs(d) < 1e-9*(1+math.Abs(q)) {
-			h.outcomes["E-borderline-dontcare"]++
-			return
+		if op.boundary != nil || math.Abs(d) < 1e-9*(1+math.Abs(q)) {
+			// decide exactly: sign of the determinant of the extended matrix (A is positive definite)
+			ext := newM(n+1, n+1)
+			for i := 0; i < n; i++ {
+				for j := 0; j < n; j++ {
+					ext.set(i, j, parent.A.at(i, j))
+				}
+				ext.set(i, n, v[i])
+				ext.set(n, i, v[i])
+			}
+			ext.set(n, n, v[n])
+			sgn, _ := ratElim(ext)
+			d = float64(sgn)
 		}
 		var ok bool
 		if msg := recoverMsg(func() { ok = recv.ExtendVecSym(orig, vv) }); msg != "" {
 			h.failf("", "ExtendVecSym panicked: %s", msg)
 			return
 		}
-		if d < 0 {
+		if d == 0 {
+			// exactly singular extension (k == wᵀA⁻¹w): documented to return false; see the
+			// SymRankOne case above for what is tolerated.
+			terminal = true
+			if ok {
+				if bad := badDiag(recv); bad != "" {
+					h.failf("", "ExtendVecSym(%v) of %s is exactly singular but returned true with %s", v, fmtM(parent.A), bad)
+					return
+				}
+				h.outcomes["E-singular-accepted-by-rounding"]++
+				return
+			}
+			cls = "E-singular-rejected"
+			applied = false
+		} else if d < 0 {
 			cls = "E-rejected"
 			if ok {
 				h.failf("", "ExtendVecSym(%v) returned true although the extended matrix is not positive definite; A=%s", v, fmtM(parent.A))
@@ -391,7 +493,7 @@ func (h *histCtx) cholStep(parent *cholNode, oi int, depth int) {
 			h.failf("cholesky-failed-update-fills-receiver", "failed %s into an empty receiver left it non-empty (n=%d, Cond()=%v): documented as left unchanged", op.name, recv.SymmetricDim(), c)
 			recv = nil
 		}
-		if depth < h.maxDepth {
+		if depth < h.maxDepth && !terminal {
 			for o := range cholOps {
 				h.cholStep(parent, o, depth+1)
 			}
